@@ -6,6 +6,104 @@ from props import dedup_common as dc
 LEVEL = 'proof'
 
 
+def decode_check(bdir, roots):
+    """The property's decodability clauses on one backup directory, with standard tools only. -> problem or None"""
+    import hashlib, os
+    try:
+        recs = store.read_manifest(bdir)
+    except Exception as e:
+        return 'manifest not decodable as `status hash dev:ino:mtime size path` lines: %r' % (e,)
+    try:
+        ent, _ = store.read_archive(bdir, with_data=True)
+    except Exception as e:
+        return 'archive not decodable: %r' % (e,)
+    files = [e for e in ent if e['type'] == 'file']
+    if len(files) != len(recs):
+        return '%d regular-file archive entries vs %d manifest lines' % (len(files), len(recs))
+    for e, r in zip(files, recs):
+        if '/' + e['path'] != r['path']:
+            return 'entry %r and line %r do not correspond / differ in order' % (e['path'], r['path'])
+        if not any(r['path'] == root or r['path'].startswith(root + '/') for root in roots):
+            return 'manifest path %r is not below a symlink-resolved item root %s' % (r['path'], roots)
+        if os.path.realpath(os.path.dirname(r['path'])) != os.path.dirname(r['path']):
+            return 'manifest path %r goes through a symbolic link' % r['path']
+        if r['unique']:
+            if e['size'] < r['size']:
+                return 'unique entry %s is shorter (%d) than its recorded size %d' % (r['path'], e['size'], r['size'])
+            if hashlib.sha512(e['data'][:r['size']]).hexdigest() != r['hash']:
+                return 'the first %d bytes of the entry of %s do not hash to the recorded hash' % (r['size'], r['path'])
+        elif e['size'] != 0:
+            return 'extern entry %s is not empty' % r['path']
+    return None
+
+
+def special_scenarios(ctx):
+    """Trees and schedules the random histories do not contain: names ending in / containing CR or LF, a file that
+    shrinks or grows between the two passes over it, item roots configured through symbolic links."""
+    import os, random
+    from vlib import hist
+    done = []
+    reps = 2 if ctx.tier == 'quick' else 12
+    for i in range(reps * 4):
+        rng = random.Random(ctx.seed * 100 + i)
+        kind = ['names', 'resize', 'symlink-root', 'symlink-root-slash'][i % 4]
+        w = hist.World(ctx, 7000 + i, rng, nitems=1)
+        try:
+            it = w.items[0]
+            os.mkdir(os.path.join(it, 'sub'))
+            w.write(os.path.join(it, 'ok one'), 1, rng.choice([10, 5000]))
+            w.write(os.path.join(it, 'sub', 'ok2'), 2, rng.choice([1, 4096, 70000]))
+            w.write(os.path.join(it, 'sub', 'dup'), 1, 10)
+            cfg_path, shim_env, expect_err = it, None, False
+            if kind == 'names':
+                for nm in rng.sample([b'report.txt\n', b'a\rb', b'tail\r', b'mid\nx', b'\nlead'], 3):
+                    open(os.path.join(os.fsencode(it), nm), 'wb').write(b'unrepresentable name')
+                expect_err = True
+            elif kind == 'resize':
+                victim = os.path.join(it, 'sub', 'victim')
+                size = rng.choice([5000, 70000, 300000])
+                w.write(victim, 3, size)
+                how = rng.choice(['truncate:%d' % rng.choice([0, 100, size // 2, size - 1]), 'append:%d' % rng.choice([1, 5000])])
+                when = rng.choice(['lseek@%s@1', 'read@%s@2'])
+                shim_env = {'ACTION': (when % os.path.realpath(victim)) + '=' + how, 'WATCH': os.path.realpath(it)}
+            else:
+                link = os.path.join(w.base, 'link-to-item')
+                os.symlink(it, link)
+                cfg_path = link + ('/' if kind.endswith('slash') else '')
+            store.write_config(w.cfg, 'b', w.root, [{'path': cfg_path}], 2, 2)
+            w.now += 10
+            r = store.run_vsb(ctx, ['-c', w.cfg, 'backup', 'b'], now=w.now, shim_env=shim_env)
+            case = {'scenario': kind, 'index': i, 'action': (shim_env or {}).get('ACTION')}
+            bdir = os.path.join(w.root, store.group_name(w.now), store.backup_name(w.now))
+            if not os.path.isdir(bdir):
+                if not expect_err and kind != 'resize':
+                    ctx.violation('property', 'special scenario %s: nothing published (exit %d, %s)' % (kind, r.rc, r.errors()[:2]), {'case': case})
+                done.append((kind, 'unpublished'))
+                continue
+            why = decode_check(bdir, [os.path.realpath(it)])
+            if why:
+                ctx.violation('property', 'special scenario %s: %s' % (kind, why), {'case': case, 'rc': r.rc, 'errors': r.errors()[:3]})
+            recs = []
+            try:
+                recs = [x['path'] for x in store.read_manifest(bdir)]
+            except Exception:
+                pass
+            if kind == 'names':
+                if r.rc == 0:
+                    ctx.violation('property', 'a file whose name contains CR/LF cannot be represented in the line-based manifest, yet the run exits 0', {'case': case})
+                if any('\r' in p or '\n' in p for p in recs):
+                    ctx.violation('property', 'a CR/LF path was written into the manifest', {'case': case})
+            if kind != 'resize' and not why:
+                want = {os.path.join(os.path.realpath(it), x) for x in ('ok one', 'sub/ok2', 'sub/dup')}
+                if set(recs) != want and not (kind == 'names' and set(recs) >= want):
+                    ctx.violation('property', 'special scenario %s: manifest paths %s differ from the symlink-resolved source paths %s' % (kind, sorted(recs), sorted(want)),
+                                  {'case': case, 'rc': r.rc})
+            done.append((kind, 'ok' if not why else 'bad'))
+        finally:
+            w.cleanup()
+    return done
+
+
 def check(ctx):
     aud = core.audit(ctx.prop)
     core.report_audit(ctx, aud)
@@ -16,6 +114,7 @@ def check(ctx):
         return
     store.ensure_shim()
     steps = dc.run_all(ctx, 40, 500)
+    special = special_scenarios(ctx)
     pub, st = dc.correspond(ctx, steps, dc.oracle_c10, 'manifest')
     # manifest line round trips through the real MetadataWriter/zstd/MetadataReader vs the model
     rng = ctx.rng
@@ -61,5 +160,6 @@ def check(ctx):
         'samples': [dc.model_request(pub[0])] if pub else [],
         'correspondence': {'backups': st, 'mdline': st2, 'mdparse': st3}, 'distribution': dc.stats(steps, pub),
         'disagreements_checked': st['cases'] + st2['cases'] + st3['cases'],
+        'special_scenarios': {k: sum(1 for a, b in special if a == k) for k in {a for a, _ in special}},
     })
-    ctx.assumptions += ['tar 0.4 / zstd crates produce standard streams (checked by decoding with libzstd + Python tarfile)', 'sources static during a run']
+    ctx.assumptions += ['tar 0.4 / zstd crates produce standard streams (checked by decoding with libzstd + Python tarfile)']
